@@ -20,53 +20,7 @@ func propC12(c *Ctx, r *Report) {
 	r.rule("C12/era-table", 6, "rate recording by height class")
 	e.evalRows(r, e.rowsC12(r))
 
-	// winners table
-	r.rule("C12/winner-table", 3, "no winners: no rates, no held conversions executed; winners: both")
-	sb := c.fn("node.Pegnetd.SyncBlock")
-	type wsc struct {
-		name    string
-		calls   map[string]AVal
-		lens    map[string]AVal
-		winners bool
-	}
-	noneT := AVal{K: ATuple, Tup: []AVal{nilVal, nilVal}}
-	someT := AVal{K: ATuple, Tup: []AVal{nonNil, nilVal}}
-	scs := []wsc{
-		{"no graded block", map[string]AVal{"Grade": noneT, "GradeS": noneT}, nil, false},
-		{"graded blocks without winners", map[string]AVal{"Grade": someT, "GradeS": someT}, map[string]AVal{"Winners()": cInt(0)}, false},
-		{"graded blocks with winners", map[string]AVal{"Grade": someT, "GradeS": someT, "GetAssetRates": {K: ATuple, Tup: []AVal{nonNil, nilVal}}, "GetAssetRatesV0": {K: ATuple, Tup: []AVal{nonNil, nilVal}}}, map[string]AVal{"Winners()": cInt(25)}, true},
-	}
-	for _, w := range scs {
-		var bad []string
-		acc := newTableAcc()
-		for _, h := range e.reps {
-			sc := &Scenario{Params: map[string]AVal{"height": hconst(h)}, Calls: w.calls, Lens: w.lens, MaxDepth: 0, AllErrorsNil: true}
-			t, _ := acc.run(c, r, sb, sc)
-			ir, ex := t.Live("InsertRates"), t.Live("ApplyTransactionBatchesInHolding")
-			wantEx := w.winners && e.a.txActive(h)
-			if ir != w.winners || ex != wantEx {
-				if len(bad) < 4 {
-					bad = append(bad, fmt.Sprintf("h=%d: InsertRates %s (expected %s), held conversions %s (expected %s)", h, liveStr(ir), liveStr(w.winners), liveStr(ex), liveStr(wantEx)))
-				}
-			}
-			if w.winners {
-				// on the no-fault path rates must be recorded before conversions execute
-				for _, lc := range t.CallsTo("ApplyTransactionBatchesInHolding") {
-					okOrder := false
-					for _, ic := range t.CallsTo("InsertRates") {
-						if execReaches(t.Root, ic.Instr, lc.Instr) {
-							okOrder = true
-						}
-					}
-					if !okOrder && len(bad) < 4 {
-						bad = append(bad, fmt.Sprintf("h=%d: held conversions can execute before this block's rates are inserted", h))
-					}
-				}
-			}
-		}
-		acc.report(c, r, "C12/winner-table", sb)
-		r.check(len(bad) == 0, "C12/winner-table", w.name, c.pos(sb.Pos()), fmt.Sprintf("%d height classes", len(e.reps)), strings.Join(bad, "; "))
-	}
+	winnerTable(c, r, e, "C12/winner-table")
 
 	// immutability
 	cat := buildSQLCat(c)
@@ -348,4 +302,55 @@ func bandTables(c *Ctx, r *Report, e *eraCtx) {
 		sort.Strings(got)
 		r.check(len(got) == 1 && got[0] == spec.want, "C12/band-table", fmt.Sprintf("%s with only %s present", fname(spec.fn), spec.want), c.pos(spec.fn.Pos()), "returns "+spec.want+" unchanged", fmt.Sprintf("returns %v", got))
 	}
+}
+
+func winnerTable(c *Ctx, r *Report, e *eraCtx, rule string) {
+	// winners table
+	r.rule(rule, 3, "no winners: no rates, no held conversions executed; winners: both")
+	sb := c.fn("node.Pegnetd.SyncBlock")
+	type wsc struct {
+		name    string
+		calls   map[string]AVal
+		lens    map[string]AVal
+		winners bool
+	}
+	noneT := AVal{K: ATuple, Tup: []AVal{nilVal, nilVal}}
+	someT := AVal{K: ATuple, Tup: []AVal{nonNil, nilVal}}
+	scs := []wsc{
+		{"no graded block", map[string]AVal{"Grade": noneT, "GradeS": noneT}, nil, false},
+		{"graded blocks without winners", map[string]AVal{"Grade": someT, "GradeS": someT}, map[string]AVal{"Winners()": cInt(0)}, false},
+		{"graded blocks with winners", map[string]AVal{"Grade": someT, "GradeS": someT, "GetAssetRates": {K: ATuple, Tup: []AVal{nonNil, nilVal}}, "GetAssetRatesV0": {K: ATuple, Tup: []AVal{nonNil, nilVal}}}, map[string]AVal{"Winners()": cInt(25)}, true},
+	}
+	for _, w := range scs {
+		var bad []string
+		acc := newTableAcc()
+		for _, h := range e.reps {
+			sc := &Scenario{Params: map[string]AVal{"height": hconst(h)}, Calls: w.calls, Lens: w.lens, MaxDepth: 0, AllErrorsNil: true}
+			t, _ := acc.run(c, r, sb, sc)
+			ir, ex := t.Live("InsertRates"), t.Live("ApplyTransactionBatchesInHolding")
+			wantEx := w.winners && e.a.txActive(h)
+			if ir != w.winners || ex != wantEx {
+				if len(bad) < 4 {
+					bad = append(bad, fmt.Sprintf("h=%d: InsertRates %s (expected %s), held conversions %s (expected %s)", h, liveStr(ir), liveStr(w.winners), liveStr(ex), liveStr(wantEx)))
+				}
+			}
+			if w.winners {
+				// on the no-fault path rates must be recorded before conversions execute
+				for _, lc := range t.CallsTo("ApplyTransactionBatchesInHolding") {
+					okOrder := false
+					for _, ic := range t.CallsTo("InsertRates") {
+						if execReaches(t.Root, ic.Instr, lc.Instr) {
+							okOrder = true
+						}
+					}
+					if !okOrder && len(bad) < 4 {
+						bad = append(bad, fmt.Sprintf("h=%d: held conversions can execute before this block's rates are inserted", h))
+					}
+				}
+			}
+		}
+		acc.report(c, r, rule, sb)
+		r.check(len(bad) == 0, rule, w.name, c.pos(sb.Pos()), fmt.Sprintf("%d height classes", len(e.reps)), strings.Join(bad, "; "))
+	}
+
 }
